@@ -58,9 +58,9 @@ def mintBy (cfg : Cfg) (t : TState) (c caller to : Addr) (a : Nat) : Ans × TSta
   else if !t.hasRole c caller || to == cfg.zero || decide (uintBound ≤ t.supply c + a) then (revertAns, t)
   else (okAns none [.transfer], (t.setSupply c (t.supply c + a)).credit c to a)
 
-/-- `_burn(who, a)` -/
+/-- `_burn(who, a)`; `_totalSupply -= amount` is checked arithmetic -/
 def burnFrom (cfg : Cfg) (t : TState) (c who : Addr) (a : Nat) : Ans × TState :=
-  if who == cfg.zero || decide (t.balOf c who < a) then (revertAns, t)
+  if who == cfg.zero || decide (t.balOf c who < a) || decide (t.supply c < a) then (revertAns, t)
   else (okAns none [.transfer], (t.debit c who a).setSupply c (t.supply c - a))
 
 /-- `_transfer(sender, to, a)`; returns `true` -/
